@@ -1,4 +1,284 @@
-From Coq Require Import List.
-From Phil Require Import Base Tree PyVal ConvText Extract.
-Theorem C09_placeholder : True. Proof. exact I. Qed.
-Print Assumptions C09_placeholder.
+(* C09 - Python values written to PHIL and read back are unchanged.
+   Only property theorems here: each closed by [exact] of a lemma of Proofs/Extract*.v and followed by
+   Print Assumptions; Examples show that hypotheses are satisfiable.
+   Model functions (the ones the correspondence stream executes through EntryExtract.v):
+     ty_as_words / ty_from_words   converter.as_words / from_words on PyVal.pyval   (ConvText.v)
+     format_obj / extract_obj       scope.format / scope.extract, definition.format / extract   (Extract.v)
+   roundtrip pe ex t opt mw v  :=  exists ws, ty_as_words t opt mw v = Ok ws /\ ty_from_words pe ex t opt ws = Ok v
+   (pe = eval oracle, ex = os.path.expanduser oracle, opt = master.optional, mw = master.words). *)
+From Coq Require Import List Ascii String Bool Arith ZArith.
+From Phil Require Import Base Tokenizer Tree PyVal ConvText Extract.
+From Phil Require Import ExtractInt ExtractText ExtractNumLift ExtractChoiceRT ExtractScope ExtractScopeM ExtractTop.
+From Phil Require Conv Choice Parser ConvProofs.
+Import ListNotations.
+Local Open Scope char_scope.
+
+(* ------------------------------------------------------------------ text types *)
+Theorem C09_str : forall pe ex opt mw s, roundtrip pe ex TyStr opt mw (VStr s).
+Proof. exact rt_str. Qed.
+Print Assumptions C09_str.
+
+Theorem C09_key : forall pe ex opt mw s, roundtrip pe ex TyKey opt mw (VStr s).
+Proof. exact rt_key. Qed.
+Print Assumptions C09_key.
+
+(* path: under the hypothesis that expanduser only touches texts that start with a tilde *)
+Theorem C09_path : forall pe ex opt mw s,
+  expanduser_spec ex -> prefixb ["~"] s = false -> roundtrip pe ex TyPath opt mw (VStr s).
+Proof. exact rt_path. Qed.
+Print Assumptions C09_path.
+
+(* F8: a path starting with a tilde is expanded on extraction *)
+Theorem C09_refuted_path_tilde : forall pe ex opt mw, ex ["~"] <> ["~"] ->
+  exists ws, ty_as_words TyPath opt mw (VStr ["~"]) = Ok ws /\ ty_from_words pe ex TyPath opt ws <> Ok (VStr ["~"]).
+Proof. exact path_tilde_refuted. Qed.
+Print Assumptions C09_refuted_path_tilde.
+
+Theorem C09_words : forall pe ex opt mw ws,
+  Parser.is_plain_none ws = false -> Parser.is_plain_auto ws = false -> roundtrip pe ex TyWords opt mw (VWords ws).
+Proof. exact rt_words. Qed.
+Print Assumptions C09_words.
+
+(* strings: every list except the single item spelled None / Auto (any case) *)
+Theorem C09_strings : forall pe ex opt mw l,
+  strings_dom l = true -> roundtrip pe ex TyStrings opt mw (VList (map VStr l)).
+Proof. exact rt_strings. Qed.
+Print Assumptions C09_strings.
+
+(* F8: the list ["None"] is written as the bare word None and reads back as None *)
+Theorem C09_refuted_strings_none : forall pe ex opt mw,
+  exists l ws, ty_as_words TyStrings opt mw (VList (map VStr l)) = Ok ws
+               /\ ty_from_words pe ex TyStrings opt ws = Ok VNone /\ VList (map VStr l) <> VNone.
+Proof. exact strings_none_refuted. Qed.
+Print Assumptions C09_refuted_strings_none.
+
+(* qstr: exactly the texts that are the canonical spelling of their own tokens ... *)
+Theorem C09_qstr : forall pe ex opt mw s ws,
+  tokenize_value_literal s = Ok ws -> Parser.join_sp (map str_of_word ws) = s ->
+  Parser.is_plain_none ws = false -> Parser.is_plain_auto ws = false ->
+  roundtrip pe ex TyQstr opt mw (VStr s).
+Proof. exact rt_qstr. Qed.
+Print Assumptions C09_qstr.
+(* ... among them every quoted rendering of any string (by C03) ... *)
+Theorem C09_qstr_quoted : forall pe ex opt mw q s, q <> QN -> roundtrip pe ex TyQstr opt mw (VStr (quote_str q s)).
+Proof. exact rt_qstr_quoted. Qed.
+Print Assumptions C09_qstr_quoted.
+(* ... but not every text: runs of blanks collapse *)
+Theorem C09_refuted_qstr_blanks : forall pe ex opt mw,
+  exists s ws, ty_as_words TyQstr opt mw (VStr s) = Ok ws
+               /\ ty_from_words pe ex TyQstr opt ws = Ok (VStr (s_ "a b")) /\ s <> s_ "a b".
+Proof. exact qstr_blanks_refuted. Qed.
+Print Assumptions C09_refuted_qstr_blanks.
+
+(* ------------------------------------------------------------------ bool, int, ints *)
+Theorem C09_bool : forall pe ex opt mw b, roundtrip pe ex TyBool opt mw (VNum (Conv.NBool b)).
+Proof. exact rt_bool. Qed.
+Print Assumptions C09_bool.
+
+(* "%d" % z read by int(): exact for every integer below CPython's 4300-digit limit *)
+Theorem C09_int_text : forall z, (Z.abs z < B4300)%Z -> Conv.py_int_of_str (str_of_Z z) = Some z.
+Proof. exact int_of_str_of_Z. Qed.
+Print Assumptions C09_int_text.
+
+(* whatever int.as_words writes for an integer within the bounds (and below the 4300-digit limit, beyond which the
+   converter writes hex(z) and reading goes through the eval oracle) reads back as that integer *)
+Theorem C09_int : forall pe ex opt mw lo hi an z ws, (Z.abs z < B4300)%Z ->
+  ty_as_words (TyInt lo hi an) opt mw (VNum (Conv.NInt z)) = Ok ws -> zbounds lo hi z ->
+  ty_from_words pe ex (TyInt lo hi an) opt ws = Ok (VNum (Conv.NInt z)).
+Proof. exact rt_int. Qed.
+Print Assumptions C09_int.
+
+(* whatever ints.as_words accepts (a list of integers, None, Auto - except the single-item lists [None] / [Auto])
+   reads back as that list *)
+Theorem C09_ints : forall pe ex opt mw smin smax lo hi ne ae items ws,
+  Forall int_value items -> Forall small_value items -> items <> [VNone] -> items <> [VAuto] ->
+  ty_as_words (TyInts smin smax lo hi ne ae) opt mw (VList items) = Ok ws ->
+  ty_from_words pe ex (TyInts smin smax lo hi ne ae) opt ws = Ok (VList items).
+Proof. exact rt_ints. Qed.
+Print Assumptions C09_ints.
+
+(* same family as F8: the one-item list [None] reads back as None *)
+Theorem C09_refuted_single_none_element : forall pe ex opt mw,
+  exists ws, ty_as_words (TyInts None None None None true true) opt mw (VList [VNone]) = Ok ws
+             /\ ty_from_words pe ex (TyInts None None None None true true) opt ws = Ok VNone.
+Proof. exact single_none_element_refuted. Qed.
+Print Assumptions C09_refuted_single_none_element.
+
+(* ------------------------------------------------------------------ choices *)
+Theorem C09_choice : forall pe ex opt mw s,
+  wf_alts mw -> In s (anames mw) -> roundtrip pe ex (TyChoice false) opt mw (VStr s).
+Proof. exact rt_choice. Qed.
+Print Assumptions C09_choice.
+
+Theorem C09_choice_none : forall pe ex opt mw,
+  wf_alts mw -> Choice.mandatory opt = false -> roundtrip pe ex (TyChoice false) opt mw VNone.
+Proof. exact rt_choice_none. Qed.
+Print Assumptions C09_choice_none.
+
+(* a selection in master order comes back as it is ... *)
+Theorem C09_multi_choice : forall pe ex opt mw p, wf_alts mw ->
+  let l := filter p (anames mw) in
+  (l = [] -> Choice.mandatory opt = false) -> roundtrip pe ex (TyChoice true) opt mw (VList (map VStr l)).
+Proof. exact rt_multi_choice. Qed.
+Print Assumptions C09_multi_choice.
+(* ... any selection comes back as the selected names in master order *)
+Theorem C09_multi_choice_any_order : forall pe ex opt mw l, wf_alts mw -> (forall x, In x l -> In x (anames mw)) ->
+  let r := filter (fun k => mems k l) (anames mw) in
+  (r = [] -> Choice.mandatory opt = false) ->
+  exists ws, ty_as_words (TyChoice true) opt mw (VList (map VStr l)) = Ok ws
+             /\ ty_from_words pe ex (TyChoice true) opt ws = Ok (VList (map VStr r)).
+Proof. exact rt_multi_choice_any. Qed.
+Print Assumptions C09_multi_choice_any_order.
+
+(* ------------------------------------------------------------------ None and Auto *)
+Theorem C09_none : forall pe ex opt mw t, allows_none t = true -> roundtrip pe ex t opt mw VNone.
+Proof. exact rt_none. Qed.
+Print Assumptions C09_none.
+Theorem C09_auto : forall pe ex opt mw t, allows_auto t = true -> roundtrip pe ex t opt mw VAuto.
+Proof. exact rt_auto. Qed.
+Print Assumptions C09_auto.
+
+(* ------------------------------------------------------------------ refusals *)
+(* ints: what as_words accepts lies within the declared size and value bounds, None / Auto items only if allowed *)
+Theorem C09_refuses_out_of_domain : forall opt mw smin smax lo hi ne ae items ws,
+  Forall int_value items ->
+  ty_as_words (TyInts smin smax lo hi ne ae) opt mw (VList items) = Ok ws ->
+  ConvProofs.size_ok smin smax (length items)
+  /\ Forall (fun x => match x with
+                      | VNum (Conv.NInt z) => zbounds lo hi z
+                      | VNone => ne = true
+                      | VAuto => ae = true
+                      | _ => False end) items.
+Proof. exact ints_accepts_only_domain. Qed.
+Print Assumptions C09_refuses_out_of_domain.
+
+Theorem C09_refuses_none : forall opt mw lo hi,
+  ty_as_words (TyInt lo hi false) opt mw VNone = UErr (s_ "CannotBeNone") [] 0.
+Proof. exact int_refuses_none. Qed.
+Print Assumptions C09_refuses_none.
+
+Theorem C09_refuses_choice : forall opt mw,
+  (forall s, ~ In s (anames mw) -> ty_as_words (TyChoice false) opt mw (VStr s) = UErr (s_ "InvalidChoice") [] 0)
+  /\ (Choice.mandatory opt = true -> ty_as_words (TyChoice false) opt mw VNone = UErr (s_ "InvalidChoice") [] 0)
+  /\ (forall l x, NoDup (anames mw) -> In x l -> ~ In x (anames mw) ->
+        ty_as_words (TyChoice true) opt mw (VList (map VStr l)) = UErr (s_ "InvalidChoice") [] 0).
+Proof. exact choice_refusals. Qed.
+Print Assumptions C09_refuses_choice.
+
+(* the scalar int converter never checks value_min / value_max when formatting: int(value_min=0,value_max=3)
+   writes 99, which extraction then refuses *)
+Theorem C09_refuted_scalar_bounds : forall pe ex opt mw,
+  exists lo hi z ws, ~ zbounds lo hi z /\ ty_as_words (TyInt lo hi true) opt mw (VNum (Conv.NInt z)) = Ok ws
+                     /\ exists k t l, ty_from_words pe ex (TyInt lo hi true) opt ws = UErr k t l.
+Proof. exact scalar_bounds_refuted. Qed.
+Print Assumptions C09_refuted_scalar_bounds.
+
+(* ------------------------------------------------------------------ scope level, masters without .multiple *)
+(* wf_nm m: active sibling names distinct, without dot, no attribute of scope_extract; nothing .multiple.
+   pdom m p: p has exactly one field per active object of m, in master order, and every leaf value survives its own
+   converter (the theorems above discharge that per type: leaf_of_roundtrip).
+   Then formatting p against m and extracting the result returns p. *)
+Theorem C09_scope_nomultiple : forall pe ex m p, wf_nm m -> pdom pe ex m p ->
+  exists t, format_obj m p = Ok t /\ extract_obj pe ex t = Ok p
+            /\ ohdr t = with_tmpl (ohdr m) 0 /\ oattrs t = oattrs m.
+Proof. exact scope_roundtrip_nomult. Qed.
+Print Assumptions C09_scope_nomultiple.
+
+(* ------------------------------------------------------------------ scope level, masters with .multiple *)
+(* wf_m m: as wf_nm, .multiple definitions and scopes allowed at any depth.
+   pdom_m m p: one field per active object in master order; the field of a .multiple object is a scope_extract_list
+   carrying the object's .optional, whose elements lie in the object's own domain and respect the append rule of
+   __phil_set__ (no None in the list of an .optional = True object).  An empty list is written as a visible template
+   and read back as an empty list; instances of a multiple scope are preceded by the hidden template. *)
+Theorem C09_scope : forall pe ex m p, wf_m m -> pdom_m pe ex m p ->
+  exists t, format_obj m p = Ok t /\ extract_obj pe ex t = Ok p
+            /\ ohdr t = with_tmpl (ohdr m) 0 /\ oattrs t = oattrs m.
+Proof. exact scope_roundtrip_multi. Qed.
+Print Assumptions C09_scope.
+
+Theorem C09_leaf_m : forall pe ex h ws t opt a v,
+  get_attr (s_ "type") a = AType t -> get_attr (s_ "optional") a = opt ->
+  roundtrip pe ex t opt ws v -> pdom_m pe ex (Def h ws a) v.
+Proof. exact leaf_of_roundtrip_m. Qed.
+Print Assumptions C09_leaf_m.
+
+Theorem C09_leaf : forall pe ex h ws t opt a v,
+  get_attr (s_ "type") a = AType t -> get_attr (s_ "optional") a = opt ->
+  roundtrip pe ex t opt ws v -> pdom pe ex (Def h ws a) v.
+Proof. exact leaf_of_roundtrip. Qed.
+Print Assumptions C09_leaf.
+
+(* ------------------------------------------------------------------ non-vacuity *)
+Definition ex_master : obj :=
+  Scp (plain_hdr []) [
+    Def (plain_hdr (s_ "a")) [uw (s_ "1")] [(s_ "type", AType (TyInt (Some 0%Z) (Some 9%Z) true))];
+    Scp (plain_hdr (s_ "s")) [
+      Def (plain_hdr (s_ "b")) [qw (s_ "x")] [(s_ "type", AType TyStr)];
+      Def (mkhdr (s_ "c") true 0 false 0 0) [uw (s_ "2")] [];
+      Def (plain_hdr (s_ "d")) [uw (s_ "*p"); uw (s_ "q")] [(s_ "type", AType (TyChoice true))]] []] [].
+Definition ex_value : pyval :=
+  VScope (Ext [] [(s_ "a", VNum (Conv.NInt 7));
+                  (s_ "s", VScope (Ext (s_ "s") [(s_ "b", VStr (s_ "q""r")); (s_ "d", VList [VStr (s_ "q")])]))]).
+Example C09_scope_example : wf_nm ex_master /\ pdom (fun _ => None) (fun s => s) ex_master ex_value.
+Proof.
+  split.
+  - vm_compute.
+    assert (N2 : forall a b : str, a <> b -> NoDup [a; b]).
+    { intros a b H. constructor; [intros [X|[]]; congruence|constructor; [intros []|constructor]]. }
+    split; [apply N2; discriminate|].
+    split; [intros _; repeat split|].
+    split; [|exact I]. intros _. split; [reflexivity|]. split; [split; reflexivity|].
+    split; [apply N2; discriminate|].
+    split; [intros _; repeat split|]. split; [intro H; discriminate H|]. split; [intros _; repeat split|exact I].
+  - unfold ex_master, ex_value. cbn [pdom active negb odis ohdr plain_hdr kname oname].
+    assert (L : forall m v t, format_obj m v = Ok t -> extract_obj (fun _ => None) (fun s => s) t = Ok v ->
+                exists t, format_obj m v = Ok t /\ extract_obj (fun _ => None) (fun s => s) t = Ok v) by eauto.
+    eexists. split; [reflexivity|]. split; [reflexivity|].
+    split; [eapply L; [vm_compute; reflexivity|vm_compute; reflexivity]|].
+    split; [reflexivity|]. split; [|reflexivity].
+    eexists. split; [reflexivity|]. split; [reflexivity|].
+    split; [eapply L; [vm_compute; reflexivity|vm_compute; reflexivity]|].
+    split; [reflexivity|]. split; [eapply L; [vm_compute; reflexivity|vm_compute; reflexivity]|]. reflexivity.
+Qed.
+Definition ex_master_m : obj :=
+  Scp (plain_hdr []) [
+    Def (plain_hdr (s_ "a")) [uw (s_ "1")] [(s_ "type", AType (TyInt None None true)); (s_ "multiple", ABool true)];
+    Scp (plain_hdr (s_ "s")) [
+      Def (plain_hdr (s_ "b")) [qw (s_ "x")] [(s_ "type", AType TyStr)]] [(s_ "multiple", ABool true); (s_ "optional", ABool true)];
+    Def (plain_hdr (s_ "c")) [uw (s_ "k")] [(s_ "type", AType TyKey); (s_ "multiple", ABool true)]] [].
+Definition ex_value_m : pyval :=
+  VScope (Ext [] [(s_ "a", VScopeList ANone [VNum (Conv.NInt 3); VNone; VNum (Conv.NInt (-4))]);
+                  (s_ "s", VScopeList (ABool true) [VScope (Ext (s_ "s") [(s_ "b", VStr (s_ "p"))]);
+                                                    VScope (Ext (s_ "s") [(s_ "b", VStr (s_ "q"))])]);
+                  (s_ "c", VScopeList ANone [])]).
+Example C09_scope_multi_example : wf_m ex_master_m /\ pdom_m (fun _ => None) (fun s => s) ex_master_m ex_value_m.
+Proof.
+  assert (L : forall m v t, format_obj m v = Ok t -> extract_obj (fun _ => None) (fun s => s) t = Ok v ->
+              exists t, format_obj m v = Ok t /\ extract_obj (fun _ => None) (fun s => s) t = Ok v) by eauto.
+  split.
+  - vm_compute. split.
+    + repeat constructor; cbn [In]; intuition discriminate.
+    + repeat split; try (intros _); repeat split; try reflexivity. repeat constructor; cbn [In]; intuition discriminate.
+  - unfold ex_master_m, ex_value_m. cbn [pdom_m active negb odis ohdr plain_hdr kname oname].
+    eexists. split; [reflexivity|]. split; [reflexivity|]. split.
+    { change (omultiple (Def (plain_hdr (s_ "a")) [uw (s_ "1")]
+                [(s_ "type", AType (TyInt None None true)); (s_ "multiple", ABool true)])) with true. cbv iota.
+      eexists. split; [reflexivity|]. repeat split; try (eapply L; [vm_compute; reflexivity|vm_compute; reflexivity]). }
+    split; [reflexivity|]. split.
+    { match goal with |- if omultiple ?k then _ else _ => change (omultiple k) with true end. cbv iota.
+      eexists. split; [reflexivity|].
+      split; [split; [|reflexivity]|split; [split; [|reflexivity]|exact I]];
+        (eexists; split; [reflexivity|]; split; [reflexivity|]; split;
+         [eapply L; [vm_compute; reflexivity|vm_compute; reflexivity]|reflexivity]). }
+    split; [reflexivity|]. split; [|reflexivity].
+    match goal with |- if omultiple ?k then _ else _ => change (omultiple k) with true end. cbv iota.
+    eexists. split; [reflexivity|exact I].
+Qed.
+Example C09_int_example : (Z.abs (-12345678901234567890) < B4300)%Z /\ zbounds (Some 0%Z) None 5%Z.
+Proof. split; [apply small_lt_B4300; apply Z.ltb_lt; vm_compute; reflexivity|]. split; intros b E; inversion E; subst; apply Z.leb_le; reflexivity. Qed.
+Example C09_choice_example : wf_alts [uw (s_ "*a"); uw (s_ "b")] /\ In (s_ "b") (anames [uw (s_ "*a"); uw (s_ "b")]).
+Proof.
+  split; [split|right; left; reflexivity].
+  - repeat constructor; cbn; intuition discriminate.
+  - repeat constructor; try reflexivity; discriminate.
+Qed.
